@@ -379,7 +379,7 @@ while i < len(lines):
             alpha = ['%s%d' % (k, v) for k in 'srwy' for v in range(nv)] + ['t25']
             Lf = 2 if quick else 3
             for _ in range(2 if quick else 4):
-                pre = ' '.join('a%d' % rng.randrange(nv) for _ in range(rng.randrange(0, 9)))
+                pre = ' '.join('a%d' % rng.randrange(nv) for _ in range(0 if name == 'yieldwin' else rng.randrange(0, 9)))   # yieldwin: stay inside the window
                 for w in itertools.product(alpha, repeat=Lf):
                     c = (base + ' ' + pre).rstrip() + ' ' + ' '.join(w) + ' ' + ' '.join('a%d' % rng.randrange(nv) for _ in range(4))
                     cand.append(c); self._e4_cat[c] = 'M:%s:fine' % name
